@@ -16,7 +16,7 @@ package reclaim
 //@   requires ssn != nil && ssn.ClusterInfo != nil && reclaimer != nil
 //@   requires forall k in ssn.ClusterInfo.PodGroupInfos :: podgroup_info.allTasksOK(ssn.ClusterInfo.PodGroupInfos[k]) && podgroup_info.setsOK(ssn.ClusterInfo.PodGroupInfos[k])
 //@   requires forall q in ssn.ClusterInfo.Queues :: ssn.ClusterInfo.Queues[q] != nil
-//@   modifies family(utils.pushed(reclaimer)), family(utils.famJO().queueNodes[*]), family(utils.famJO().rootNodes), family(utils.famJO().rootNodes.queue), family(utils.famJO().rootNodes.maxQueueSize), family(utils.famJO().queueNodes[""].queue), family(utils.famJO().queueNodes[""].children), family(utils.famJO().queueNodes[""].needsReorder), family(utils.famJO().queueNodes[""].parent), family(utils.famJO().queueNodes[""].isLeaf), utils.famJO().rootNodes.queue.items[*]
+//@   modifies family(utils.pushed(reclaimer)), family(utils.famJO().queueNodes[*]), family(utils.famJO().rootNodes), family(utils.famJO().rootNodes.queue), family(utils.famJO().rootNodes.maxQueueSize), family(utils.famJO().queueNodes[""].queue), family(utils.famJO().queueNodes[""].children), family(utils.famJO().queueNodes[""].needsReorder), family(utils.famJO().queueNodes[""].parent), family(utils.famJO().queueNodes[""].isLeaf), family(utils.famJO().rootNodes.queue.items[*])
 //@   loop 1
 //@     invariant forall k in jobs :: podgroup_info.allTasksOK(jobs[k]) && podgroup_info.setsOK(jobs[k])
 //@     invariant forall k in jobs :: utils.memberOf(ssn.ClusterInfo.PodGroupInfos, jobs[k])
